@@ -426,6 +426,21 @@ def _transform(op, x, y, s, names, n):
     if op == "modify_grouped":
         if n == 0:
             raise _Skip()
+        if a % 3 == 0 and n >= 2:
+            # the group-wise function hands back a *column* of a foreign length (twice the group / the whole outer
+            # column): any other length mismatch must be rejected, never stored misaligned
+            bad = (lambda d: d[first].concat(d[first])) if a % 2 else (lambda d: x[first])
+            try:
+                out = x.group_by(first).modify(bad=bad)
+            except Exception:
+                x._group_colnames = ()
+                raise _Skip()
+            x._group_colnames = ()
+            groups = len(set(map(repr, build.cells(x[first]))))
+            if a % 2 or groups > 1:
+                raise Violation("grouped modify stored a group-wise result whose length differs from its group",
+                                nrow=n, groups=groups, stored=len(dict.__getitem__(out, "bad")))
+            return out, None
         out = x.group_by(first).modify(gsize=lambda d: d.nrow)
         x._group_colnames = ()
         return out, list(names) + (["gsize"] if "gsize" not in names else [])
